@@ -1005,7 +1005,10 @@ pub fn fam_verdict(tier: Tier) -> Vec<Config> {
             for n in 0..=2usize {
                 for b_kind in [M, StepKind::NoMatch] {
                     for perr in perrs {
-                        for ff in ffs {
+                        for (ff, lazy) in ffs.iter().flat_map(|f| [(f, false), (f, true)]) {
+                            if lazy && (perr.is_none() || n > 0) {
+                                continue;
+                            }
                             let mut tags: Vec<String> = vec![];
                             if n > 0 {
                                 tags.push(format!("retry({n})"));
@@ -1043,6 +1046,11 @@ pub fn fam_verdict(tier: Tier) -> Vec<Config> {
                             cfg.after = true;
                             cfg.conc_builder = Some(Some(2));
                             cfg.fail_fast_builder = *ff;
+                            cfg.lazy = lazy;
+                            cfg.lazy_end = lazy;
+                            if lazy {
+                                cfg.bound = Some(1);
+                            }
                             cfg.plan.gates = GateMode::Steps;
                             let info = cfg.scen_infos()[0].clone();
                             let keys = callable_keys(&info, true, true);
@@ -1077,8 +1085,9 @@ pub fn fam_verdict(tier: Tier) -> Vec<Config> {
                                 c.plan.world_new = worlds;
                                 c.max_execs = 200;
                                 c.name = format!(
-                                    "verdict/{second:?}|allow-{allow}|n{n}|b{b_kind:?}|perr{perr:?}|ff{}|{chain:?}",
-                                    u8::from(*ff)
+                                    "verdict/{second:?}|allow-{allow}|n{n}|b{b_kind:?}|perr{perr:?}|ff{}|lazy{}|{chain:?}",
+                                    u8::from(*ff),
+                                    u8::from(lazy)
                                 );
                                 out.push(c);
                             }
